@@ -53,6 +53,16 @@ def _f32(name, vals, dims):
     return t
 
 
+def TensorProto_bool(name, value):
+    from onnx import TensorProto
+
+    t = TensorProto()
+    t.name = name
+    t.data_type = TensorProto.BOOL
+    t.raw_data = b"\x01" if value else b"\x00"
+    return t
+
+
 def make_function(pop, name="F", feat=()):
     from onnx import TensorProto as T
     from onnx import helper
@@ -94,7 +104,14 @@ def build_model(api, pop, feat, payloads=()):
     inputs, outputs, nodes, inits, vinfo = [X], [Y], [], [], []
     W0 = _f32("W0", [1.0, -0.0], [2, 1])
     inits.append(W0)
-    n_tanh = helper.make_node("Tanh", ["X"], ["t"], name="n_tanh")
+    sym = "symdims" in feat
+    if sym:
+        # connected values declare the same runtime extent under different dim_param names
+        # (X: N, xi: batch, t: rows, output a: cols); nothing needs to rename any of them
+        nodes.append(helper.make_node("Identity", ["X"], ["xi"], name="n_id"))
+        vinfo.append(helper.make_tensor_value_info("xi", T.FLOAT, [2, "batch"]))
+        outputs.append(helper.make_tensor_value_info("a", T.FLOAT, [2, "cols"]))
+    n_tanh = helper.make_node("Tanh", ["xi" if sym else "X"], ["t"], name="n_tanh")
     n_add = helper.make_node("Add", ["t", "W0"], ["a"], name="n_add")
     nodes += [n_tanh, n_add]
     last = "a"
@@ -110,6 +127,22 @@ def build_model(api, pop, feat, payloads=()):
         nodes.append(helper.make_node("Transpose", [last], ["tr1"], name="n_tr1", perm=[1, 0]))
         nodes.append(helper.make_node("Transpose", ["tr1"], ["tr2"], name="n_tr2", perm=[1, 0]))
         last = "tr2"
+    if "constif" in feat:
+        # two If nodes with a constant condition; each taken branch owns an initializer "w" that shadows the
+        # main-graph "w", and the first free-looking name "w_1" is taken as well: inlining must not disturb w / w_1
+        inits += [_f32("w", [1.0, 2.0], [2, 1]), _f32("w_1", [100.0, 200.0], [2, 1])]
+        ct = TensorProto_bool("cond_true", True)
+        inits.append(ct)
+        nodes.append(helper.make_node("Add", [last, "w"], ["aw"], name="n_addw"))
+        nodes.append(helper.make_node("Add", ["aw", "w_1"], ["aw1"], name="n_addw1"))
+        last = "aw1"
+        for k, vals in ((1, [10.0, 20.0]), (2, [30.0, 40.0])):
+            tg = helper.make_graph([helper.make_node("Mul", [last, "w"], [f"ci_then{k}"], name=f"n_ci_mul{k}")], f"ci_then_g{k}", [],
+                                   [helper.make_tensor_value_info(f"ci_then{k}", T.FLOAT, [2, "N"])], initializer=[_f32("w", vals, [2, 1])])
+            eg = helper.make_graph([helper.make_node("Identity", [last], [f"ci_else{k}"], name=f"n_ci_id{k}")], f"ci_else_g{k}", [],
+                                   [helper.make_tensor_value_info(f"ci_else{k}", T.FLOAT, [2, "N"])])
+            nodes.append(helper.make_node("If", ["cond_true"], [f"ci{k}"], name=f"n_cif{k}", then_branch=tg, else_branch=eg))
+            last = f"ci{k}"
     if "subgraph" in feat:
         C = helper.make_tensor_value_info("C", T.BOOL, [])
         inputs.append(C)
@@ -155,14 +188,14 @@ def build_model(api, pop, feat, payloads=()):
     if "attr_doc" in pop:
         for a in n_sink.attribute:
             a.doc_string = f"doc of attribute {a.name}"
-    if "value_info" in pop or "vi_meta" in pop:
-        vt = helper.make_tensor_value_info("t", T.FLOAT, [2, "N"])
+    if "value_info" in pop or "vi_meta" in pop or sym:
+        vt = helper.make_tensor_value_info("t", T.FLOAT, [2, "rows" if sym else "N"])
         va = helper.make_tensor_value_info("a", T.FLOAT, [2, "N"])
         if "vi_meta" in pop:
             vt.doc_string = "doc of t"
             _md(vt, vkey="vval")
             _md(va, vkey="vval2")
-        vinfo += [vt, va]
+        vinfo += [vt] if sym else [vt, va]      # with symdims `a` is a graph output (declared there)
     if "init_doc" in pop:
         for t in inits:
             t.doc_string = f"doc of {t.name}"
@@ -363,6 +396,8 @@ def _classify_graph(rest, init_names):
         return "graph_doc"
     if f == "metadata_props":
         return "graph_meta"
+    if f in ("input", "output", "value_info") and rest[-1][0] == "dim_param":
+        return "sym_dims"                      # a declared symbolic dimension name
     if f in ("input", "output"):
         return "io_meta" if nxt in ("doc_string", "metadata_props") else "io_sig"
     if f == "initializer":
@@ -429,10 +464,14 @@ def element(p):
         return ("model",)
     el = ("graph",)
     i = 1
+    nested = False
     while i < len(p):
         f, k = p[i]
         if f in ("node", "initializer", "value_info", "input", "output") and k is not None:
-            el = (f, k)
+            # tensors / annotations owned by a subgraph are elements of their own (a branch may shadow an outer name)
+            el = (f, k) if (f == "node" or not nested) else ("sub_" + f, k)
+            if f == "node" and i + 2 < len(p) and p[i + 1][0] == "attribute" and p[i + 2][0] in ("g", "graphs"):
+                nested = True
             if f == "node" and i + 2 < len(p) and p[i + 1][0] == "attribute" and p[i + 2][0] in ("g", "graphs"):
                 i += 3
                 continue
@@ -455,6 +494,10 @@ def witness_elements(api, feat, payload_names=()):
         w.add(("initializer", n))
     if "subgraph" in feat:
         w |= {("node", "n_then_tanh"), ("node", "n_else_add"), ("node", "n_if")}
+    if "symdims" in feat:
+        w |= {("output", "a")}
+    if "constif" in feat:
+        w |= {("initializer", "w"), ("initializer", "w_1"), ("node", "n_addw"), ("node", "n_addw1"), ("node_io", "n_addw1")}
     return frozenset(w)
 
 
@@ -538,7 +581,7 @@ def abstract_carrier(p, init_names, wit):
         return _FN_CARRIER.get(p[0][1], "fn_other")
     if c == "vi_implied":
         return "vi_implied"
-    if c in ("node_struct", "value_info", "attr_payload") and el[0] in ("node", "node_io", "value_info") and el not in wit:
+    if c in ("node_struct", "value_info", "attr_payload") and el[0] in ("node", "node_io", "value_info", "sub_value_info") and el not in wit:
         return "nodes"
     if c == "init_payload" and el not in wit:
         return "inits"
